@@ -460,6 +460,7 @@ func (st ServerType) buildTLSApp(
 	if len(al) > 0 {
 		tlsApp.CertificatesRaw["automate"] = caddyconfig.JSON(al, &warnings)
 	}
+	slices.Sort(internalAP.SubjectsRaw) // (they were collected from a map) to stabilize the adapt output
 	if len(internalAP.SubjectsRaw) > 0 {
 		if tlsApp.Automation == nil {
 			tlsApp.Automation = new(caddytls.AutomationConfig)
